@@ -8,7 +8,7 @@ import fcntl, os, subprocess, sys, time
 
 REPO = os.environ.get("VERIF_REPO", "/repo")
 ROOT = os.path.dirname(os.path.dirname(os.path.abspath(__file__)))
-BUILD = os.path.join(ROOT, "build")
+BUILD = os.environ.get("VERIF_BUILD") or os.path.join(ROOT, "build")
 
 FLAVOURS = {
     "plain": dict(cc="gcc", cflags="-DASL_VERIF -w", ldflags=""),
